@@ -81,15 +81,16 @@ CHECKS = {
             "Generated documents (generic ones under the packaged META/SKILL schemas; instances of generated schemas planted "
             "on the search path) are rendered canonically, leniently and as emitted canonical text; per profile the triple "
             "(status, error (code, field) set, warning set) must be identical across all texts through octave_validate (one "
-            "long-lived tool instance), Validator and octave_write(corrections_only); fix=false must return plain "
+            "long-lived tool instance, content and file_path routes), Validator (fresh and one long-lived instance), "
+            "octave_write(corrections_only) and CLI validate; fix=false must return plain "
             "canonicalisation and be repeatable, also after an intervening fix=true call. Sampled.",
             "implementation compared with itself under respelling (no independent verdict needed: that is C08); parse receipts "
             "are excluded from the triple",
             "DESIGN.md §3 C09"),
     "C10": ("exploration",
             "envelope invariants over Hypothesis-generated argument records, against the harness's own list of existing schemas",
-            "Tens of thousands of generated calls of the four tools and the CLI (content kind x schema argument incl. planted, "
-            "broken, field-less, unknown, malformed, latest and frozen@sha256 references with HOME pointed at a generated "
+            "Tens of thousands of generated calls of the four tools and the CLI (content kind incl. eight frontmatter shapes x schema argument incl. planted, "
+            "broken, field-less, frontmatter-only, unknown, malformed, latest and frozen@sha256 references with HOME pointed at a generated "
             "cache x profile x every flag x schema-file history inside the process). Every envelope must carry a status from "
             "the three values; VALIDATED only for schema arguments the harness planted or knows as packaged, never when the "
             "content violates the current schema, and the returned text must be VALIDATED again; unknown / unloadable "
@@ -100,11 +101,12 @@ CHECKS = {
     "C11": ("exploration",
             "before/after structural diff of the normal form reconciled with the repair log (multiset equality), Decimal oracle for losslessness",
             "Generated schemas (ENUM pools with case structure, NUMBER fields) x instances with perturbed values, missing/extra "
-            "fields, unrelated blocks and zones, through repair(), octave_validate(fix) and octave_write(lenient, schema): fix "
+            "fields, unrelated blocks and zones, occurrences of schema field names below and outside the schema's block, through repair(), "
+            "octave_validate(fix), octave_write(lenient, schema), CLI validate --fix and the packaged META route (21 META.STATUS spellings): fix "
             "off changes nothing; fix on keeps keys/nesting/order and changes only leaves that are a case change to the unique "
             "case-insensitive ENUM member or a text-to-number change with equal decimal value; changes == log entries (tier "
             "REPAIR, exact before/after); repairing twice is a no-op. Sampled.",
-            "schema field names are generated only as direct children of the schema's block; Python's Decimal decides losslessness",
+            "a repair is judged by field name wherever it occurs (the whole-tree walk is the mechanism the property names); Python's Decimal decides losslessness",
             "DESIGN.md §3 C11"),
     "C12": ("exploration",
             "independent llama.cpp-syntax GBNF parser (with error recovery) as validity predicate over generated schemas",
@@ -141,7 +143,8 @@ CHECKS = {
             "Each generated document is sealed; it must verify in memory, after emit->parse, after being written (atomic_write_octave, "
             "CLI seal -o + validate --verify-seal --require-seal) and keep its HASH when sealed again; lenient respellings of the "
             "sealed text must verify; every single-site tamper of the content model (value, type, order, nesting/parent, key, "
-            "section id/name, target, META, envelope name, frontmatter incl. re-indentation, zone text incl. re-indentation) "
+            "section id/name, target, META, envelope name, frontmatter incl. re-indentation, zone text incl. re-indentation, a line "
+            "break replaced by U+2028/NEL/FF/VT) "
             "combined with the original seal must be INVALID, as must each of 64 single-character changes of the stored hash; "
             "no seal => NO_SEAL. All single-site tampers of each sampled document are enumerated; documents are sampled.",
             "tampers touching only comments, the separator or the grammar sentinel are not generated (not in the property's list)",
@@ -151,8 +154,8 @@ CHECKS = {
             "Generated documents x sequences of change requests (DELETE / null / values of every kind / objects; KEY, META.X, META{...}, "
             "mutations) through octave_write and CLI write --changes: the file must hold exactly the content of the model with the "
             "named operations applied (structure, typed values, comments), and all lines outside the named keys' spans must be "
-            "unchanged; exhaustive small part: Absent at 7 positions x 4 neighbour shapes is never written, and the four empty "
-            "values stay distinct in all 24 orders.",
+            "unchanged; a changes request on a file that cannot be read must fail and leave the bytes alone; exhaustive small part: "
+            "Absent at 7 positions x 4 neighbour shapes is never written, and the four empty values stay distinct in all 24 orders.",
             "requests address top-level assignments, META fields and fresh keys; deleted nodes carry no comments; documents have no empty containers",
             "DESIGN.md §3 C18"),
     "C16": ("fault_enumeration",
@@ -178,7 +181,7 @@ CHECKS = {
     "C19": ("exploration",
             "generated trees x path strings under a file-operation trace with before/after snapshots; exhaustive short schema names; reference and URI pools",
             "Path strings built from a segment pool (.., every symlink kind incl. dangling and self-referential, allowed/disallowed/"
-            "compound/upper-case extensions, NUL, over-long) are handed to nine entry points over a planted sandbox + outside tree: "
+            "compound/upper-case extensions, NUL, over-long, ~ and $HOME spellings with HOME pointing at the outside tree) are handed to nine entry points over a planted sandbox + outside tree: "
             "a path the harness classifies as traversal / symlink / wrong extension must be refused with no open/create/replace/"
             "unlink in the trace and no change of either tree; no call may mutate or leak the outside tree. Schema names of <=3 "
             "characters over 66 symbols (quick: <=2 + sample) may only open files in schema directories; frozen references must "
@@ -201,10 +204,11 @@ CHECKS = {
             "differential across worker processes under a configuration matrix and shuffled call histories; byte equality of serialised envelopes",
             "One generated batch of calls (all four tools, direct emit/seal/hash/Validator/GBNFCompiler) is executed by worker "
             "processes that differ in PYTHONHASHSEED (0, 1, 4242, random), working directory, LANG/LC_ALL, and history (fresh, "
-            "after a shuffled permutation of the same calls in the same process, as tasks of one event loop); every call's "
+            "after a shuffled permutation of the same calls in the same process, as tasks of one event loop, from four OS threads sharing "
+            "the tool instances, from eight threads released at once in a cold process); every call's "
             "serialised envelope (key order kept, timestamps masked) must be byte-identical to the reference worker's.",
-            "the implementation is compared with itself; locales limited to those installed (C.UTF-8, C, POSIX); thread "
-            "interleavings inside the reader are not explored",
+            "the implementation is compared with itself; locales limited to those installed (C.UTF-8, C, POSIX); OS-thread "
+            "interleavings are sampled, the harness does not own that schedule",
             "DESIGN.md §3 C06"),
 }
 
